@@ -62,8 +62,12 @@ def et_configs(g, tier):
         for tag in tl["ET"]:
             if tag not in tags:
                 yield {"family": "ET", "tag": tag, "rated": 5000, "refused": [], "battery": 1}
+    # rated powers at the edges: the documented classes +-1 and every round thousand (+-1) that occurs as a constant in the source under test
+    # (a threshold that is introduced or moved shows up in this list by itself), plus large units
+    from . import env as _env
+    edges = sorted({14999, 15000, 24999, 25000, 50000, 65535} | {v for v in _env.harvest_ints() if 3000 <= v <= 65535 and v % 1000 in (0, 1, 999)})
     for tag in tags:
-        for rated in (14999, 15000, 24999, 25000):
+        for rated in edges:
             yield {"family": "ET", "tag": tag, "rated": rated, "refused": [], "battery": 1}
     for tag in tags:
         for rated in POWER_CLASSES:
